@@ -317,7 +317,7 @@ class HybridClass(metaclass=MetaHybridClass):
                 out[ff] = vv.to_dict()
             elif hasattr(vv, "_to_dict"):
                 out[ff] = vv._to_dict()
-            elif np.any(defaults.get(ff) != vv):
+            elif ff not in defaults or np.any(defaults[ff] != vv):
                 # Only include those scalar values that are not default.
                 out[ff] = vv
 
